@@ -280,7 +280,7 @@ Qed.
 
 (* ================================================================ the strengthened invariant *)
 Definition handle_wf (h : handle) : Prop := match h with HIter _ rem => 0 <= rem | _ => True end.
-Definition nostrong (h : handle) : Prop := match h with HRc _ | HIter _ _ => False | _ => True end.
+Definition nostrong (h : handle) : Prop := match h with HRc _ | HIter _ _ | HWeak _ => False | _ => True end.
 Definition cont_incs (o : nat) (c : cont) : Prop :=
   exists l, cok c = HRc l /\ fst l = o /\ (cign c = false -> cfail c = HNone).
 
@@ -296,7 +296,8 @@ Definition frame_wf (n : nat) (f : frame) : Prop :=
   | FDispDo _ d _ _ => 0 <= d
   | FDisp117 _ d _ _ _ | FKids d _ _ _ | FKid118 _ d _ _ _ => 0 <= d
   | FKid119 c wc nxt d _ _ _ => 0 <= d /\ exists e, nxt = with_epoch (sub_strong wc 1) e
-  | FIncW103 _ cnt | FIncW104 _ cnt _ | FIncW105 _ cnt => 0 < cnt < LIM
+  | FIncW103 _ cnt | FIncW105 _ cnt => 0 < cnt < LIM
+  | FIncW104 _ cnt old => 0 < cnt < LIM /\ weaked old = false
   | FIsND108 o c | FIsND109 o _ _ c => (cdst c < n)%nat /\ nostrong (cok c) /\ nostrong (cfail c)
   | FSwap122 _ _ (Some dd) | FSwap120 _ _ (Some dd) => (dd < n)%nat
   | FCas120 _ _ _ src d | FCas123 _ _ _ src d => (src < n)%nat /\ (d < n)%nat /\ src <> d
@@ -859,7 +860,7 @@ Lemma micro_inv_FIncS100 s t rec s' obs x k o c :
   Inv' s -> counted_ok s -> bounded s -> gett s t = Some x -> frames x = FIncS100 o c :: k ->
   micro s t rec = Some (s', obs) -> Step s s'.
 Proof.
-  intros HI HC HB Hx Hf Hm. open_micro Hm Hx Hf.
+  intros HI HC HB Hx Hf Hm. destruct HC as (HC & _). open_micro Hm Hx Hf.
   pose proof HI as (HA & HN & HT). destruct (HT _ _ Hx) as (Wx & Sx). rewrite Hf in Sx. get_dn Wx Hf Hdn0.
   destruct (geto s o) as [ob|] eqn:Hg.
   2:{ inversion Hm; subst; clear Hm. fr_only (set_err s 5) x (@nil frame); auto using rc_eq_set_err. }
@@ -910,7 +911,7 @@ Lemma micro_inv_FIncS101 s t rec s' obs x k o c :
   Inv' s -> counted_ok s -> bounded s -> gett s t = Some x -> frames x = FIncS101 o c :: k ->
   micro s t rec = Some (s', obs) -> Step s s'.
 Proof.
-  intros HI HC HB Hx Hf Hm. open_micro Hm Hx Hf.
+  intros HI HC HB Hx Hf Hm. destruct HC as (HC & _). open_micro Hm Hx Hf.
   pose proof HI as (HA & HN & HT). destruct (HT _ _ Hx) as (Wx & Sx). rewrite Hf in Sx. get_dn Wx Hf Hdn0.
   destruct (geto s o) as [ob|] eqn:Hg.
   2:{ inversion Hm; subst; clear Hm. fr_only (set_err s 5) x (@nil frame); auto using rc_eq_set_err. }
@@ -1447,7 +1448,8 @@ Lemma micro_inv_FIncW103 s t rec s' obs x k o cnt :
 Proof.
   intros HI HB HB' Hx Hf Hm. open_micro Hm Hx Hf. prep HI Hx Hf HA HN HT Wx Sx Hfw Hst.
   destruct (geto s o) as [ob|] eqn:Hg; [|inversion Hm; subst; kill_err HB HB'].
-  destruct (weaked (word ob)); inversion Hm; subst s' obs; clear Hm; fr1 rc_eq_refl.
+  destruct (weaked (word ob)) eqn:Hwkd; inversion Hm; subst s' obs; clear Hm; fr1 rc_eq_refl.
+  repeat constructor; auto; apply Hwf0.
 Qed.
 
 Ltac view_step Hf Hg :=
@@ -1462,7 +1464,7 @@ Lemma micro_inv_FIncW104 s t rec s' obs x k o cnt old :
 Proof.
   intros HI HB HB' Hx Hf Hm. open_micro Hm Hx Hf. prep HI Hx Hf HA HN HT Wx Sx Hfw Hst.
   destruct (geto s o) as [ob|] eqn:Hg; [|inversion Hm; subst; kill_err HB HB'].
-  destruct (bounded_word _ _ _ HB Hg) as (Hw & Hs & Hwk). cbn [frame_wf] in Hwf0.
+  destruct (bounded_word _ _ _ HB Hg) as (Hw & Hs & Hwk). cbn [frame_wf] in Hwf0. destruct Hwf0 as (Hwf0 & Hwkd0).
   destruct (Z.eqb_spec (word ob) old) as [<-|Hne].
   - inversion Hm; subst s' obs; clear Hm.
     pose proof (upd_with_weaked (word ob) true Hw) as U1. pose proof U1 as (Hw1 & _).
@@ -1470,7 +1472,8 @@ Proof.
     { apply upd_add_weak; auto; try lia. rewrite weak_with_weaked; auto. }
     destruct (upd_trans _ _ _ _ _ U1 U2) as (Hw' & Hs' & Hd').
     change (with_frames x k) with (with_frames x ([] ++ k)). view_step Hf Hg.
-  - destruct (weaked (word ob)); inversion Hm; subst s' obs; clear Hm; fr1 rc_eq_refl.
+  - destruct (weaked (word ob)) eqn:Hwkd; inversion Hm; subst s' obs; clear Hm; fr1 rc_eq_refl.
+    all: repeat constructor; auto; cbn [frame_wf]; auto; lia.
 Qed.
 
 Lemma micro_inv_FIncW105 s t rec s' obs x k o cnt :
@@ -1507,6 +1510,8 @@ Qed.
 Ltac kill_err' HB' := exfalso; revert HB'; apply err_branch'; discriminate.
 
 Lemma nostrong_strong o h : nostrong h -> handle_strong o h = 0 /\ handle_wf h.
+Proof. destruct h; cbn; tauto. Qed.
+Lemma nostrong_weak o h : nostrong h -> handle_weak o h = 0.
 Proof. destruct h; cbn; tauto. Qed.
 
 Lemma micro_inv_FIsND108 s t rec s' obs x k o c :
@@ -2872,7 +2877,7 @@ Definition op_ok_b (n : nat) (op : list Z) : bool :=
   | [1; c; d] => (0 <=? c) && (c <? LIM) && Nat.leb (nat_of d + nat_of c) n
   | [2; c; d] => (0 <=? c) && (c <? LIM) && Nat.ltb (nat_of d) n
   | [_; _; d] => Nat.ltb (nat_of d) n
-  | [10; _; c; _] => (0 <? c) && (c <? LIM)
+  | [10; _; c; d] => (0 <? c) && (c <? LIM) && Nat.leb (nat_of d + nat_of c) n
   | [32; _; _; _; _; d] => Nat.ltb (nat_of d) n
   | [33; _; _; _; _; _; d] => Nat.ltb (nat_of d) n
   | _ => true
@@ -2902,17 +2907,45 @@ Proof.
     apply Forall_forall. intros op Hop. apply op_ok_b_ok; auto.
 Qed.
 
-Definition counted_ok_b (s : state) : bool :=
+Definition scounted_ok_b (s : state) : bool :=
   forallb (fun x => match frames x with
                     | FIncS100 o c :: _ | FIncS101 o c :: _ =>
                         negb (cign c) || match geto s o with Some ob => negb (destructed (word ob)) | None => true end
                     | _ => true
                     end) (threads s).
-Lemma counted_ok_b_ok s : counted_ok_b s = true -> counted_ok s.
+Lemma scounted_ok_b_ok s : scounted_ok_b s = true -> scounted_ok s.
 Proof.
-  unfold counted_ok_b. intros H t x o c k ob Hx Hf Hc Hg. rewrite forallb_forall in H.
+  unfold scounted_ok_b. intros H t x o c k ob Hx Hf Hc Hg. rewrite forallb_forall in H.
   specialize (H _ (nth_error_In _ _ Hx)). destruct Hf as [Hf|Hf]; rewrite Hf, Hc, Hg in H; cbn in H;
     destruct (destructed (word ob)); auto; discriminate.
+Qed.
+(* sufficient: no thread is between sites 105 and 106 at all *)
+Definition is_incw106 (f : frame) : bool := match f with FIncW106 _ => true | _ => false end.
+Definition wcounted_ok_b (s : state) : bool :=
+  forallb (fun x => forallb (fun f => negb (is_incw106 f)) (frames x)) (threads s).
+Lemma wcounted_ok_b_ok s : wcounted_ok_b s = true -> wcounted_ok s.
+Proof.
+  unfold wcounted_ok_b. intros H t x o tmp k t' x' Hx Hf Hx' Hin. rewrite forallb_forall in H.
+  specialize (H _ (nth_error_In _ _ Hx')). rewrite forallb_forall in H. specialize (H _ Hin). discriminate.
+Qed.
+Definition wlive_ok_b (s : state) : bool :=
+  forallb (fun x => match frames x with
+                    | f :: _ => match incw_obj f with
+                                | Some o => match geto s o with Some ob => negb (freed ob) | None => true end
+                                | None => true
+                                end
+                    | [] => true
+                    end) (threads s).
+Lemma wlive_ok_b_ok s : wlive_ok_b s = true -> wlive_ok s.
+Proof.
+  unfold wlive_ok_b. intros H t x f k o ob Hx Hf Hi Hg. rewrite forallb_forall in H.
+  specialize (H _ (nth_error_In _ _ Hx)). rewrite Hf, Hi, Hg in H. destruct (freed ob); auto; discriminate.
+Qed.
+Definition counted_ok_b (s : state) : bool := scounted_ok_b s && wcounted_ok_b s && wlive_ok_b s.
+Lemma counted_ok_b_ok s : counted_ok_b s = true -> counted_ok s.
+Proof.
+  unfold counted_ok_b. intros H. apply andb_prop in H as (H & H3). apply andb_prop in H as (H1 & H2).
+  split; [apply scounted_ok_b_ok|split; [apply wcounted_ok_b_ok|apply wlive_ok_b_ok]]; auto.
 Qed.
 
 Definition tde_ok_b (s : state) : bool :=
@@ -2990,3 +3023,36 @@ Print Assumptions C04_tde.
 Print Assumptions C05_monotone_tde.
 Print Assumptions C05_upgrade_tde.
 Print Assumptions C10_tde.
+
+(* ---- facts about the decrementing frames, reused by the weak side (RcWeakP.v) *)
+Lemma decs112_facts s t x k o cnt r tmp own ob :
+  Inv' s -> gett s t = Some x -> frames x = FDecS112 o cnt r (word ob) tmp own :: k -> geto s o = Some ob ->
+  0 < cnt <= strong (word ob) /\ destructed (word ob) = false.
+Proof.
+  intros HI Hx Hf Hg. prep HI Hx Hf HA HN HT Wx Sx Hfw Hst.
+  pose proof (HA _ _ Hg) as Hinv.
+  pose proof (owners_ge_top s t x o _ _ (Inv'_all_wf _ HI) Hx Hf) as Hown. cbn [frame_strong] in Hown.
+  pose proof (attempts_ge_top s t x o _ _ Hx Hf) as Hatt. cbn [frame_attempt] in Hatt. rewrite Nat.eqb_refl in *.
+  destruct Hwf0 as (Hcnt & Hown1).
+  assert (Hd : destructed (word ob) = false).
+  { destruct (destructed (word ob)) eqn:E; auto. destruct (j_dead _ _ _ Hinv E). destruct own; lia. }
+  destruct (live_facts _ _ _ Hinv Hd) as (J1 & J2 & J3 & Jd & Jf & Jo).
+  pose proof (b2z_range (tok ob)) as Hb.
+  split; auto. split; auto. destruct own; [lia|].
+  cbn in Hst. destruct Hst as (ob0 & Hg0 & Ht). rewrite Hg in Hg0. inversion Hg0; subst ob0.
+  rewrite Ht in J1. cbn in J1. specialize (Hown1 eq_refl). lia.
+Qed.
+
+Lemma kid119_facts s t x k c nxt depth ne curr outs ob :
+  Inv' s -> gett s t = Some x -> frames x = FKid119 c (word ob) nxt depth ne curr outs :: k -> geto s (fst c) = Some ob ->
+  1 <= strong (word ob) /\ exists e, nxt = with_epoch (sub_strong (word ob) 1) e.
+Proof.
+  intros HI Hx Hf Hg. prep HI Hx Hf HA HN HT Wx Sx Hfw Hst.
+  destruct Hwf0 as (Hdep & e & Hnxt). split; [|eauto].
+  pose proof (HA _ _ Hg) as Hinv.
+  pose proof (owners_ge_top s t x (fst c) _ _ (Inv'_all_wf _ HI) Hx Hf) as Hown. cbn [frame_strong] in Hown.
+  rewrite is_o_eq in Hown. pose proof (sumZ_is_o_nonneg (fst c) outs).
+  assert (Hd : destructed (word ob) = false).
+  { destruct (destructed (word ob)) eqn:E; auto. destruct (j_dead _ _ _ Hinv E). lia. }
+  destruct (live_facts _ _ _ Hinv Hd) as (J1 & _). pose proof (b2z_range (tok ob)). lia.
+Qed.
